@@ -367,6 +367,12 @@ func validators(x *h.X, c vcfg, now time.Time) (*jwt.Validator, ref.JWTValidator
 		o.ExpectedAudience, rv.ExpectedAud = sp(""), sp("")
 	}
 	v, err := jwt.NewValidator(o)
+	// the caller REUSES its options struct right after the constructor returned (e.g. to build the next validator):
+	// the validator must have its own copy of the rules
+	o.ExpectedTypeHeader, o.ExpectedIssuer, o.ExpectedAudience = sp("reused-typ"), sp("reused-iss"), sp("reused-aud")
+	o.IgnoreTypeHeader, o.IgnoreIssuer, o.IgnoreAudiences = !o.IgnoreTypeHeader, !o.IgnoreIssuer, !o.IgnoreAudiences
+	o.AllowMissingExpiration, o.ExpectIssuedInThePast = !o.AllowMissingExpiration, !o.ExpectIssuedInThePast
+	o.ClockSkew, o.FixedNow = 9*time.Minute, o.FixedNow.Add(72*time.Hour)
 	x.Eval(1)
 	constructible := rv.Constructible() && !bothAud
 	if constructible && err != nil {
